@@ -415,6 +415,21 @@ fn run_inner(case: &RcCase, out: &mut RcOutcome)
                 app.world_mut().entity_mut(ents[e]).insert(Fuse);
                 m.fused[e] = true;
             }
+            RcOp::Burst(k) if *k == 11 =>
+            {
+                // a big burst: 2100 short-lived counted entities lose their only clone before one collection, which must
+                // take every one of them (queues, buffers and channels of any fixed size overflow here)
+                let n = 2100usize;
+                let fresh: Vec<Entity> = (0..n).map(|_| app.world_mut().spawn_empty().id()).collect();
+                for e in fresh.iter() { let sig = app.world().resource::<AutoDespawner>().prepare(*e); drop(sig); }
+                garbage_collect_entities(app.world_mut());
+                gcs += 1;
+                m.gc();
+                m.settle_either(&|e| app.world().get_entity(ents[e]).is_ok());
+                let leaked = fresh.iter().filter(|e| app.world().get_entity(**e).is_ok()).count();
+                if leaked > 0 { out.violations.push(format!("op {i}: {leaked} of {n} entities that lost their only signal clone before one collection were not despawned by it")); }
+                hit(out, "C10:burst_of_2100");
+            }
             RcOp::Burst(k) =>
             {
                 for _ in 0..(*k).clamp(2, 4)
